@@ -1219,3 +1219,27 @@ func asBool(o Object) Boolean {
 //@ ensures [C13.refill.rfault] !old(rfault()) && rfault() ==> s.err != nil && s.err != io.EOF
 //@ ensures [C13.refill.rfault.now] !old(rfault()) && rfault() && s.used == 0 ==> result != nil && result == s.err
 //@ ensures [C13.refill.noread] old(s.err) != nil ==> rfault() == old(rfault())
+
+// C02: the remaining operand-stack level operators of the supported set.
+// matrix pushes a new six-element identity matrix; maxlength replaces a
+// dictionary by a capacity that is at least its length; internaldict checks
+// its password; the access operators (readonly, executeonly, noaccess) leave
+// their operand as it is.
+//@ func bMatrix
+//@ ensures [C02.matrix] result == nil && depth(intp) == old(depth(intp)) + 1 && isType(top(intp, 0), Array) && len(top(intp, 0).(Array)) == 6 && fresh(top(intp, 0).(Array)) && isInt(top(intp, 0).(Array)[0]) && asInt(top(intp, 0).(Array)[0]) == 1 && asInt(top(intp, 0).(Array)[1]) == 0 && asInt(top(intp, 0).(Array)[2]) == 0 && asInt(top(intp, 0).(Array)[3]) == 1 && asInt(top(intp, 0).(Array)[4]) == 0 && asInt(top(intp, 0).(Array)[5]) == 0
+//@ ensures [C02.matrix.below] forall k :: 1 <= k && k <= old(depth(intp)) ==> top(intp, k) == old(top(intp, k-1))
+//@ func bMaxlength
+//@ ensures [C02.maxlength.underflow] old(depth(intp)) < 1 ==> isPSErr(result, eStackunderflow) && depth(intp) == old(depth(intp))
+//@ ensures [C02.maxlength.type] old(depth(intp)) >= 1 && !isType(old(top(intp, 0)), Dict) ==> isPSErr(result, eTypecheck) && depth(intp) == old(depth(intp))
+//@ ensures [C02.maxlength.value] old(depth(intp)) >= 1 && isType(old(top(intp, 0)), Dict) && old(len(top(intp, 0).(Dict))) < 9223372036854775807 ==> result == nil && depth(intp) == old(depth(intp)) && isInt(top(intp, 0)) && asInt(top(intp, 0)) >= old(Integer(len(top(intp, 0).(Dict))))
+//@ func bInternaldict
+//@ ensures [C02.internaldict.underflow] old(depth(intp)) < 1 ==> isPSErr(result, eStackunderflow)
+//@ ensures [C02.internaldict.type] old(depth(intp)) >= 1 && !isInt(old(top(intp, 0))) ==> isPSErr(result, eTypecheck)
+//@ ensures [C02.internaldict.password] old(depth(intp)) >= 1 && isInt(old(top(intp, 0))) && asInt(old(top(intp, 0))) != 1183615869 ==> isPSErr(result, eInvalidaccess) && depth(intp) == old(depth(intp))
+//@ ensures [C02.internaldict.ok] old(depth(intp)) >= 1 && isInt(old(top(intp, 0))) && asInt(old(top(intp, 0))) == 1183615869 ==> result == nil && depth(intp) == old(depth(intp)) && isType(top(intp, 0), Dict) && top(intp, 0).(Dict) == intp.InternalDict
+//@ func bReadonly
+//@ ensures [C02.access.readonly] result == nil && depth(intp) == old(depth(intp)) && stackFrame(intp, 0)
+//@ func bExecuteonly
+//@ ensures [C02.access.executeonly] result == nil && depth(intp) == old(depth(intp)) && stackFrame(intp, 0)
+//@ func bNoaccess
+//@ ensures [C02.access.noaccess] result == nil && depth(intp) == old(depth(intp)) && stackFrame(intp, 0)
